@@ -60,6 +60,14 @@ def foreign_cases():  # noqa: ANN201
                     for shape in shapes:
                         yield {"t": "foreign", "cfg": cfg, "situation": sit, "parts": list(parts),
                                "shape": shape}  # fmt: skip
+                        if "native" in parts and sit != "uncancelled":
+                            # the native cancellation was raised in the handler of an ordinary
+                            # error that was itself raised while an AnyIO cancellation unwound
+                            # (native.__context__ -> error -> AnyIO's): still a native one
+                            # (seeded change C04-e; the DIRECT chain native -> AnyIO's is the
+                            # open finding F36 and belongs to C05)
+                            yield {"t": "foreign", "cfg": cfg, "situation": sit, "parts": list(parts),
+                                   "shape": shape, "chain": "via-error"}  # fmt: skip
 
 
 def _leaves(e) -> list:  # noqa: ANN001
@@ -114,7 +122,25 @@ def judge_foreign(case: dict, col) -> None:  # noqa: ANN001
                         objs["own"] = own
 
                     # (built and raised outside any except block: no __context__ chain
-                    # that would make a native cancellation look like an AnyIO one)
+                    # that would make a native cancellation look like an AnyIO one - unless
+                    # the case asks for the chain native -> ordinary error -> AnyIO's)
+                    if case.get("chain") == "via-error":
+                        anyio_c = own
+                        if anyio_c is None:
+                            try:
+                                await checkpoint()
+                            except asyncio.CancelledError as c:
+                                anyio_c = c
+
+                        if anyio_c is None:
+                            res["no_delivery"] = True
+                            return
+
+                        mid = Boom("raised while the cancellation unwound")
+                        mid.__context__ = anyio_c
+                        objs["native"].__context__ = mid
+                        res["chained"] = True
+
                     items = [objs[p] for p in parts]
                     if shape == "bare":
                         exc = items[0]
@@ -166,6 +192,8 @@ def judge_foreign(case: dict, col) -> None:  # noqa: ANN001
     col.case(sig_of(case), True, sample={"case": case, "out": repr(res.get("out"))[:200]})
     col.count("foreign_exception_cases")
     col.count("window:foreign_exception_through_scope_exit")
+    if res.get("chained"):
+        col.count("window:native_cancellation_chained_to_anyio_one_through_an_ordinary_error")
     for clause, detail in viol:
         col.violation(clause, detail, case)
 
